@@ -263,9 +263,10 @@ def replay_mm(d, kind):
     return bool(bad), detail
 
 
-def o_mm(rep, kind, N):
+def o_mm(rep, kind, N, part=0, parts=1):
+    """part/parts: the paths are shared out over `parts` obligations (each explores all paths - cheap - and proves its share)."""
     res = explore(lambda: _run(kind, N), max_paths=3000, max_depth=200, recip=False)
-    rep.note(f"{kind} N={N}: paths={len(res)}")
+    rep.note(f"{kind} N={N}: paths={len(res)} (this obligation proves paths with index % {parts} == {part})")
     n = 0
     closed = 0
     for r in res:
@@ -274,6 +275,10 @@ def o_mm(rep, kind, N):
             continue
         f, w0, mu0, models0, es, ds, calls, snaps = r.out
         n += 1
+        if f._converged_filter is not None:
+            closed += 1
+        if (n - 1) % parts != part:
+            continue
         tag = f"{kind}[N={N}]#{n}"
 
         def inputs(m, es=es, ds=ds):
@@ -334,7 +339,6 @@ def o_mm(rep, kind, N):
             rep.prove(f"{tag}-moments{k}", z3.And(*g), cons, timeout_ms=60000, sample="est_x = sum w_i x_i; est_p = sum w_i (P_i + d d^T), symmetric")
         # (4) closure hands back the surviving model
         if f._converged_filter is not None:
-            closed += 1
             kw = f._converged_filter.kw
             g = [z3.BoolVal(len(f.models) >= 1)]
             # with a convergence percentage above one half at most one model can have reached it: exactly that model survives
@@ -368,7 +372,10 @@ def obligations(tier):
     obs = []
     for kind in ("smm", "gpb1"):
         for N in ((2, 3) if tier == "quick" else (2, 3, 4)):
-            name = f"{kind}-N{N}"
-            obs.append(Ob(name, (lambda k, n: lambda rep: o_mm(rep, k, n))(kind, N), f"{kind} update/prune/closure with {N} models", 1500))
-            REPLAYS[name] = replay_smm
+            parts = 6 if (kind == "smm" and N >= 3) else (3 if N >= 4 else 1)
+            for part in range(parts):
+                name = f"{kind}-N{N}" + (f"-p{part}" if parts > 1 else "")
+                obs.append(Ob(name, (lambda k, n, p, ps: lambda rep: o_mm(rep, k, n, p, ps))(kind, N, part, parts), f"{kind} update/prune/closure with {N} models"
+                              + (f" (paths {part} mod {parts})" if parts > 1 else ""), 1500))
+                REPLAYS[name] = replay_smm if kind == "smm" else replay_gpb1
     return obs
